@@ -185,3 +185,20 @@ Definition open_workstream (now stamp maxAge : Z) (recovery implements : bool) (
 (* the seeded change C11-d: Recovery() only after execute.New *)
 Definition open_workstream_late (now stamp maxAge : Z) (recovery : bool) (v : vault) : store * list N :=
   select_vault now stamp maxAge recovery v.
+
+(* ---- a crash during the close ----
+   The Update* calls start-up recovery makes, in order: for every aged plan (in the order of the state
+   chain) its close, plan row first.  [crash_during_close j] is the durable store a process leaves that
+   dies after the j-th of them; the next incarnation runs [select] on it. *)
+Definition close_writes (now stamp maxAge : Z) (s : store) : list row :=
+  match fetch_plans s (search_running s) with
+  | None => []
+  | Some plans => flat_map (fun p => writes_aged (age_out stamp p)) (filter (stale now maxAge) plans)
+  end.
+
+Definition crash_during_close (j : nat) (now stamp maxAge : Z) (s : store) : store :=
+  persist s (firstn j (close_writes now stamp maxAge s)).
+
+(* the seeded change C11-e: sub-objects first, the plan row last *)
+Definition writes_plan_last (pm : plan) : list row :=
+  tl (rows_plan pm) ++ [RPlan (oid (p_id pm)) (p_state pm) (p_reason pm)].
